@@ -73,6 +73,17 @@ def run(payload):
              ("model F4 Real a; Real b; Real s; equation der(s) = a + 1; a = b; a + b = 0; end F4;", "F4"),
              ("model F5 Real a; Real b; Real c; Real s; equation der(s) = c + s; a = -b; b = c; c = a; end F5;", "F5"),
              ("model F6 Real a; Real b; Real c; Real s; equation der(s) = 2 * s; c + b = 0; a = b; c = a; end F6;", "F6")]
+    for fn in ("sin", "tan", "sinh", "tanh", "abs", "sqrt"):
+        for k in (0, 1, -2):
+            n += 1
+            nontrivial += 1
+            try:
+                txt, bad = judge_periodic(fn, k)
+            except BaseException as e:  # noqa
+                txt, bad = fn, "%s: %s" % (type(e).__name__, str(e)[:120])
+            if bad:
+                failures.append({"class": "simplify", "input": {"model": txt, "options": {"factor_and_simplify_equations": True}}, "observed": bad,
+                                 "expected": "solution set preserved"})
     models = fixed + [(S.gen_model(rng, i)[0], "M%d" % i) for i in range(n_models)]
     for txt, name in models:
         for opts in S.option_sets(tier):
@@ -89,6 +100,30 @@ def run(payload):
                 if len(failures) >= 3:
                     return failures, n, nontrivial
     return failures, n, nontrivial
+
+
+def judge_periodic(fn, k):
+    """fn(th - ph) = 0 with ph = 0.25: th = ph + k*pi is a solution for sin and tan (every k), th = ph for the others; the
+    simplified residual must still vanish at each of them"""
+    txt = "model P Real th; Real ph; equation ph = 0.25; %s(th - ph) = 0; end P;" % fn
+    sol = {"time": 0.0, "ph": 0.25, "th": 0.25 + (k * np.pi if fn in ("sin", "tan") else 0.0)}
+    m0, _ = S.build(txt, "P", {})
+    r0 = S.residual_at(m0, dict(sol))
+    if np.max(np.abs(r0)) > 1e-9:
+        return txt, None          # not a solution of the original (cannot happen for the listed functions)
+    m, o = S.build(txt, "P", {"factor_and_simplify_equations": True})
+    try:
+        m.simplify(o)
+    except BaseException:  # noqa
+        return txt, None
+    env = dict(sol)
+    left = S.names_of(m.alg_states)
+    if any(n_ not in env for n_ in left):
+        return txt, "simplified model has a new symbol among %s" % left
+    r = S.residual_at(m, env)
+    if r.size and np.max(np.abs(r)) > 1e-7:
+        return txt, "original solution th = %.6f, ph = 0.25 is lost: simplified residual there is %s" % (sol["th"], np.round(r, 6).tolist())
+    return txt, None
 
 
 def nonaffine_witness():
@@ -117,7 +152,7 @@ def main():
     failures, n, nontrivial = run(payload)
     if payload.get("mode") == "bounded":
         print(json.dumps({"performed": True, "cases": n, "distinct_nontrivial": nontrivial, "failures": failures,
-                          "rule": "generated triangular-affine models (alias chains, signed aliases in both spellings, alias cycles with an odd number of negative links, constant assignments incl. literal-on-the-left, constant factors, eliminable _t variables, parameter expressions) x option combinations: recorded aliases/constants must hold in the exact original solution, the simplified residual must vanish there and still determine the remaining unknowns",
+                          "rule": "equations f(th - ph) = 0 for periodic and monotone f (sin, tan, sinh, tanh, abs, sqrt) at three solutions each under factor_and_simplify_equations; generated triangular-affine models (alias chains, signed aliases in both spellings, alias cycles with an odd number of negative links, constant assignments incl. literal-on-the-left, constant factors, eliminable _t variables, parameter expressions) x option combinations: recorded aliases/constants must hold in the exact original solution, the simplified residual must vanish there and still determine the remaining unknowns",
                           "bound": "%d model/option pairs; models affine (solved exactly)" % n}))
     else:
         f = failures[0] if failures else None
